@@ -308,24 +308,24 @@ Definition guard (b : bool) (code : N) : res unit := if b then Ok tt else Err co
 
 (* ticket.go:183 ParseSessionState *)
 Definition parse_state (data : bytes) : res state :=
-  do '(version, s) <- opt_res (rd_u16 data);
-  do '(typ, s) <- opt_res (rd_u8 s);
+  do (version, s) <- opt_res (rd_u16 data);
+  do (typ, s) <- opt_res (rd_u8 s);
   do _ <- guard ((typ =? 1) || (typ =? 2)) E_PARSE;
-  do '(suite, s) <- opt_res (rd_u16 s);
-  do '(createdAt, s) <- opt_res (rd_u64 s);
-  do '(secret, s) <- opt_res (rd_lp8 s);
-  do '(extra, s) <- opt_res (rd_lp24 s);
-  do '(ems, s) <- opt_res (rd_u8 s);
-  do '(early, s) <- opt_res (rd_u8 s);
+  do (suite, s) <- opt_res (rd_u16 s);
+  do (createdAt, s) <- opt_res (rd_u64 s);
+  do (secret, s) <- opt_res (rd_lp8 s);
+  do (extra, s) <- opt_res (rd_lp24 s);
+  do (ems, s) <- opt_res (rd_u8 s);
+  do (early, s) <- opt_res (rd_u8 s);
   do _ <- guard (negb (is_nil secret)) E_PARSE;
-  do '((certs, ocsp, scts), s) <- opt_res (unmarshal_certificate s);
+  do ((certs, ocsp, scts), s) <- opt_res (unmarshal_certificate s);
   do extras <- opt_res (rd_many rd_lp24 (length extra) extra);
   do _ <- guard ((ems =? 0) || (ems =? 1)) E_PARSE;
   do _ <- guard ((early =? 0) || (early =? 1)) E_PARSE;
   do _ <- guard (forallb x509ok certs) E_X509;
-  do '(chainList, s) <- opt_res (rd_lp24 s);
+  do (chainList, s) <- opt_res (rd_lp24 s);
   do chains <- rd_chains (length chainList) certs chainList;
-  do '(alpn, s) <- (if early =? 1 then opt_res (rd_lp8 s) else Ok ([], s));
+  do (alpn, s) <- (if early =? 1 then opt_res (rd_lp8 s) else Ok ([], s));
   let mk isClient useBy ageAdd :=
     mkState version isClient suite createdAt secret extras (ems =? 1) (early =? 1) certs ocsp scts chains alpn useBy ageAdd in
   if negb (typ =? 2) then
@@ -335,8 +335,8 @@ Definition parse_state (data : bytes) : res state :=
     if version <? VersionTLS13 then
       (do _ <- guard (is_nil s) E_PARSE; Ok (mk true 0 0))
     else
-      do '(useBy, s) <- opt_res (rd_u64 s);
-      do '(ageAdd, s) <- opt_res (rd_u32 s);
+      do (useBy, s) <- opt_res (rd_u64 s);
+      do (ageAdd, s) <- opt_res (rd_u32 s);
       do _ <- guard (is_nil s) E_PARSE;
       Ok (mk true useBy ageAdd).
 
@@ -468,7 +468,7 @@ Definition init_legacy (c : config) (now : Z) (rnd : bytes) : res (config * byte
 (* common.go:1069 ticketKeys(nil) *)
 Definition ticket_keys (c : config) (now : Z) (rnd : bytes) : res (list tkey * config * bytes) :=
   if c_disabled c then Ok ([], c, rnd) else
-  do '(c, rnd) <- init_legacy c now rnd;
+  do (c, rnd) <- init_legacy c now rnd;
   if negb (is_nil (c_keys c)) then Ok (map fst (c_keys c), c, rnd) else
   let fresh := match c_auto c with (_, created) :: _ => (now - created <? ticketKeyRotation)%Z | [] => false end in
   if fresh then Ok (map fst (c_auto c), c, rnd) else
@@ -482,7 +482,7 @@ Definition ticket_keys (c : config) (now : Z) (rnd : bytes) : res (list tkey * c
 
 (* Config.EncryptTicket / Config.DecryptTicket as called on a Config (public API) *)
 Definition cfg_encrypt (c : config) (now : Z) (rnd : bytes) (s : state) : res (bytes * config * bytes) :=
-  do '(keys, c, rnd) <- ticket_keys c now rnd;
+  do (keys, c, rnd) <- ticket_keys c now rnd;
   do b <- state_bytes s;
   match keys with
   | [] => Err E_NOKEYS
@@ -494,7 +494,7 @@ Definition cfg_encrypt (c : config) (now : Z) (rnd : bytes) (s : state) : res (b
   end.
 
 Definition cfg_decrypt (c : config) (now : Z) (rnd : bytes) (t : bytes) : res (option state * config * bytes) :=
-  do '(keys, c, rnd) <- ticket_keys c now rnd;
+  do (keys, c, rnd) <- ticket_keys c now rnd;
   Ok (DecryptTicket keys t, c, rnd).
 
 (* key rotation by the application: a history of SetSessionTicketKeys calls *)
